@@ -211,7 +211,7 @@ class Src:
             raise ExtractError(f"{self.path}: block header `{header}` found {len(hits)} times")
         return hits[0]
 
-    def find_fn(self, name, within=None):
+    def find_fn(self, name, within=None, allow_decl=False):
         ranges = [(0, len(self.toks))]
         if within:
             ranges = self.find_block_by_header(within, multi=True)
@@ -250,6 +250,8 @@ class Src:
             if t == "{":
                 break
             if t == ";":
+                if allow_decl:
+                    return FnLoc(self, s[start_idx], s[idx], s[idx + 1], s[j], s[j])
                 raise ExtractError(f"{self.path}: fn `{name}` has no body")
             j += 1
         body_open = s[j]
